@@ -1929,3 +1929,5 @@ M("c10-query-never-raises", "C10", "R6.read-only-query-asks-what-the-guard-asks"
 M("c17-completed-contexts-not-counted", "C17", "R6.boundary-on-small-histories", "state.py",
   "                    if op.operation_type != OperationType.EXECUTION", "                    if op.operation_type != OperationType.CONTEXT")
 M("c05-stop-drain-loop-doubly-negated", "C05", "R6.stop-releases-queued-waiters", "state.py", "                while not pending.empty():", "                while (not (not pending.empty())):")
+M("c09-decided-call-joins-the-pool", "C09", "R2.decided-call-does-not-join-the-pool", "concurrency/executor.py",
+  "            thread_executor.shutdown(wait=False, cancel_futures=True)", "            thread_executor.shutdown(wait=True, cancel_futures=True)")
